@@ -13,6 +13,7 @@ ASSUMPTIONS = [
     "E2-13.3: for every state of every exported lexer automaton and a symbolic byte: next_byte == ForcedByte(c) => every other byte and end-of-input are dead; ForcedEOI => every byte is dead (SomeBytes* hints carry no guarantee and are probed by forced_byte)",
     "K13.1: chop_tokens as a whole does not fit CBMC (12.9 GB at 400 s on a 4-word vocabulary even with format! stubbed). Decided instead: its token/byte accounting loop, cut out of the current source (between `let chop_bytes = suff.len();` and `unreachable!();`) and run for every combination of 1-4 token lengths in 1..6 and every suffix length: the returned byte count is exactly the length of the dropped tokens, they cover the suffix, and one token fewer would not. The suffix search itself is has_valid_extensions (decided above)",
     "K13.3: the probe of ParserState::forced_byte — the statements of its speculative closure after `let mut r = ParserRecognizer { state };`, cut from the current source — run against a mock recogniser with a symbolic set of viable bytes (all 2^256 sets) and every lexer hint (ForcedEOI, SomeBytes0/1/2 with distinct example bytes, Dead): it answers Some(b) exactly when b is the only viable byte. What try_push_byte itself answers is the Earley parser's and is outside",
+    "K13.4: the byte accounting of TokenParser::process_prompt — its statements from the tokenisation of prompt+forced bytes to the end of the `if chop_bytes <= grm_bytes.len()` block, cut from the current source with the infoln! lines removed — in a mock TokenParser (one token per byte, tokenisation and decoding inverse, optional leading space on decode, tokenize_and_chop dropping a given number of trailing tokens as decided by K13.1): for prompt lengths 0-3, forced-byte lengths 0-3, every chop length and every content, returned prompt ++ pending text == prompt ++ forced bytes, the part moved into the prompt is marked applied, a chopped piece of the prompt becomes the grammar prefix. Sizes are concrete per instance (symbolic allocation lengths are out of CBMC's reach), contents symbolic",
     "outside the claim: try_push_byte / the Earley rows behind the probe, force_bytes, ff_tokens, process_prompt (need the parser state)",
 ]
 
@@ -82,7 +83,10 @@ def run():
     # the forced_byte probe (source slice, llguidance crate) runs next to the toktrie group: separate overlays and target directories
     from concurrent.futures import ThreadPoolExecutor
     with ThreadPoolExecutor(max_workers=2) as ex:
-        fp = ex.submit(run_parser_groups, "C13", "c13p", ["parser"], pp.specs("parser", "c13", "c13_fail"), out, 4, 1500)
+        pspecs = pp.specs("parser", "c13", "c13_fail") + pp.specs("tokenparser", "c13", "c13_fail")
+        if t == "quick":
+            pspecs = [x for x in pspecs if not any(k in x["name"] for k in ("p2_g2_c0", "p2_g2_c4", "p3_g1", "p0_g0"))]
+        fp = ex.submit(run_parser_groups, "C13", "c13p", ["parser", "tokenparser"], pspecs, out, 5, 1500)
         info, fams = run_toktrie_groups("C13", "c13", {"walk", "hasext"}, out, select=sel, extra_specs=None, harness_timeout_s=900, chop=True, jobs=12)
         infop = fp.result()
     info["kani_wall_s_parser_crate"] = infop.get("kani_wall_s", 0)
@@ -93,7 +97,7 @@ def run():
         st = {}
     cov = e1_coverage(out, [dict(vocabulary=f["name"], words=[bytes(w).decode("latin-1") for w in f["words"]]) for f in fams[:6]] or [dict(note="none")],
                       ["toktrie::toktree::TokTrie::{add_bias (start != ''), add_bias_inner, has_valid_extensions, child_at_bytes}, FixedRecognizer",
-                       "earley/parser.rs ParserState::forced_byte probe loop (source slice)", "earley/regexvec.rs next_byte (hint) vs transition table of every exported lexer automaton"],
+                       "earley/parser.rs ParserState::forced_byte probe loop (source slice)", "tokenparser.rs TokenParser::process_prompt byte accounting (source slice)", "earley/regexvec.rs next_byte (hint) vs transition table of every exported lexer automaton"],
                       dict(start_len=[1, 2], acceptor_states=[2, 3]), dict(tier=t, e2_hints=st, **info))
     cov["evaluations"] += st.get("queries", 0)
     cov["distinct_nontrivial"] += st.get("automata", 0)
